@@ -85,7 +85,7 @@ def run_model(spec, ses):
     tower = spec['atom'] in TOWER_ATOMS or spec.get('base') in ('power3', 'gmean')
     try:
         with quiet():
-            cm = Compiled(detgen.desc_from_spec(spec), abstract_towers=tower, front=spec.get('front', 'ro'))
+            cm = Compiled(detgen.desc_from_spec(spec), abstract_towers=tower, front=spec.get('front', 'ro'), style=spec.get('style'))
     except HarnessError:
         raise
     except MalformedProgram as e:
@@ -150,7 +150,7 @@ def run_model(spec, ses):
             ses.oblige(name + '/iface-bounds', S + Sdefs, [z3.Not(z3.And(bc))], kind='projection-qf', twin=False)
     # ---- optimum
     with quiet():
-        cmr = Compiled(detgen.desc_from_spec(spec), front=spec.get('front', 'ro')) if tower else cm
+        cmr = Compiled(detgen.desc_from_spec(spec), front=spec.get('front', 'ro'), style=spec.get('style')) if tower else cm
         try:
             if cmr.cp.qmat or cmr.cp.xmat:
                 from rsome import eco_solver as solver
@@ -356,14 +356,14 @@ def replay(data, verbose=False):
     if 'malformed' in data:
         try:
             with quiet():
-                Compiled(detgen.desc_from_spec(spec), front=spec.get('front', 'ro'))
+                Compiled(detgen.desc_from_spec(spec), front=spec.get('front', 'ro'), style=spec.get('style'))
         except MalformedProgram as e:
             if verbose:
                 print('model %s: %s' % (spec['name'], e))
             return True
         return False
     with quiet():
-        cm = Compiled(detgen.desc_from_spec(spec), front=spec.get('front', 'ro'))
+        cm = Compiled(detgen.desc_from_spec(spec), front=spec.get('front', 'ro'), style=spec.get('style'))
     f = cm.formula
     if 'point' in data:
         pt = {k: float(Fraction(v)) for k, v in data['point'].items()}
